@@ -33,6 +33,15 @@ Parts:  A  fit criterion through create_lbfgs_arguments (exactly the GaussianPro
            exact float inputs, relative tolerance max(1e-10, 7e-12 u^2) + conditioning of u (the unchanged erfc-based
            code: max relative error 4.2e-12 at u = -12, 2.8e-13 for u >= -6, i.e. a safety factor >= 240).
 
+        E  explicit ``predictor=`` argument (batch suggestion re-uses one acquisition function object with fantasised
+           predictors): an object built on predictor A is evaluated with ``predictor=B`` (B: differently fitted GP with
+           one more, better observation resp. a stub with other candidates; different incumbent) in three call
+           sequences (B first; A, B, A; two interleaved rounds) for EI / EIpu / CEI; every evaluation without the
+           argument must equal a fresh object built on A (value alone, value with gradient, gradient; gradient also
+           vs finite differences of the fresh object's value), every evaluation with the argument a fresh object on
+           B.  Constrained EI with MIXED feasibility over the fantasy columns by construction (incumbent NaN in some
+           columns, finite in others) vs its closed form computed from the stub's analytic means / stds.
+
 Bounded stand-in: run-time monitoring over an enumerated, seed-dependent catalogue. Never counted as proved.
 """
 import contextlib
@@ -56,6 +65,8 @@ CL_STUB = "stub-plumbing-gradient-is-the-derivative"
 CL_ORDER = "two-output-acquisition-independent-of-predictor-dict-order"
 CL_TAIL_SIGN = "expected-improvement-never-negative[tail]"
 CL_TAIL_FORM = "expected-improvement-equals-closed-form[tail]"
+CL_OTHER = "default-predictor-evaluation-unaffected-by-explicit-predictor-argument"
+CL_CEI_MIXED = "constrained-ei-mixed-feasibility-equals-closed-form"
 ACQ_NAMES = ("EI", "LCB", "EIpu", "CEI")
 
 
@@ -66,7 +77,7 @@ def _cl_acq(name):
 ALL_CLAUSES = (
     [CL_FIT_GRAD, CL_FIT_VALUE, CL_CHOL, CL_JITTER]
     + [_cl_acq(a) for a in ACQ_NAMES]
-    + [CL_ACQ_VALUE, CL_EI_SIGN, CL_STUB, CL_ORDER, CL_TAIL_SIGN, CL_TAIL_FORM]
+    + [CL_ACQ_VALUE, CL_EI_SIGN, CL_STUB, CL_ORDER, CL_TAIL_SIGN, CL_TAIL_FORM, CL_OTHER, CL_CEI_MIXED]
 )
 
 
@@ -1364,6 +1375,291 @@ def _part_d(ck, tier, seed, info):
 
 
 # ---------------------------------------------------------------------------------------------------------------
+# Part E: explicit ``predictor=`` argument (incumbent cache), mixed-feasibility constrained EI
+# ---------------------------------------------------------------------------------------------------------------
+def _eval_pair(acq, x, predictor=None):
+    """(value alone, value with gradient, gradient) at the single point x, for the default or an explicit predictor"""
+    kw = {} if predictor is None else {"predictor": predictor}
+    alone = float(np.asarray(acq.compute_acq(x.copy(), **kw)).reshape(-1)[0])
+    val, grad = acq.compute_acq_with_gradient(x.copy(), **kw)
+    return alone, float(val), np.asarray(grad, dtype=float).reshape(-1)
+
+
+def _check_other_predictor(ck, name, make_acq, pred_a, pred_b, arg_b, incumbents_differ, xs, others, ident, fd_clause):
+    """One acquisition function object built on predictor A is also evaluated with ``predictor=B`` (what batch
+    suggestion does with fantasised predictors).  Whatever the order of the calls, every evaluation WITHOUT the
+    argument must equal the evaluation by a fresh object built on A which never saw B (value alone, value with
+    gradient, gradient; the gradient is also compared with finite differences of the fresh object's value), and
+    every evaluation with ``predictor=B`` must equal the evaluation by a fresh object built on B."""
+    fresh_a = make_acq(pred_a)
+    fresh_b = make_acq(pred_b)
+
+    def fbatch(pts):
+        return np.asarray(fresh_a.compute_acq(np.vstack([np.reshape(p, (1, -1)) for p in pts])), dtype=float).reshape(-1)
+
+    def same(got, want, what, idx, x, sequence):
+        ck.count[CL_OTHER] += 1
+        if incumbents_differ:
+            ck.informative[CL_OTHER] += 1
+        ok = True
+        for g, w in zip(got, want):
+            g, w = np.asarray(g, dtype=float), np.asarray(w, dtype=float)
+            scale = max(float(np.max(np.abs(w))), float(np.max(np.abs(g)))) if w.size else 0.0
+            ok = ok and g.shape == w.shape and bool(np.all(np.abs(g - w) <= 1e-9 * scale + 1e-14))
+        if not ok:
+            ck.violation(
+                CL_OTHER,
+                problem=what,
+                sequence=sequence,
+                got=[_lst(g) for g in got],
+                fresh_object=[_lst(w) for w in want],
+                input=_lst(x),
+                **idx
+            )
+        return ok
+
+    others = np.asarray(others, dtype=float)
+    for x in xs:
+        x = np.array(x, dtype=float)
+        if _in_clamp_region(fresh_a, name, x) or _in_clamp_region(fresh_b, name, x):
+            continue
+        idx = dict(ident)
+        idx["acquisition"] = name
+        try:
+            ref_a = _eval_pair(fresh_a, x)
+            ref_b = _eval_pair(fresh_b, x)
+            ref_b_others = np.asarray(fresh_b.compute_acq(others.copy()), dtype=float).reshape(-1)
+            # -- sequence 1: B first (scoring of other candidates), then the default predictor
+            seq = "new object; compute_acq(others, predictor=B); compute_acq_with_gradient(x); compute_acq(x)"
+            acq = make_acq(pred_a)
+            got = np.asarray(acq.compute_acq(others.copy(), predictor=arg_b), dtype=float).reshape(-1)
+            same([got], [ref_b_others], "compute_acq(others, predictor=B) differs from a fresh object built on B", idx, x, seq)
+            val, grad = acq.compute_acq_with_gradient(x.copy())
+            grad = np.asarray(grad, dtype=float).reshape(-1)
+            alone = float(np.asarray(acq.compute_acq(x.copy())).reshape(-1)[0])
+            same([alone, float(val), grad], ref_a, "default predictor after an evaluation with predictor=B", idx, x, seq)
+            ck.check_equal_values(CL_ACQ_VALUE, float(val), ref_a[0], input=_lst(x), sequence=seq, **idx)
+            ck.compare(fd_clause, fbatch, x, grad, ref_a[0], dict(idx, sequence=seq), lower=np.full(x.shape, 0.0), upper=np.full(x.shape, 1.0))
+            # -- sequence 2: A (fills the cache), B with gradient, A again
+            seq = "new object; compute_acq(x); compute_acq_with_gradient(x, predictor=B); compute_acq_with_gradient(x); compute_acq(x)"
+            acq = make_acq(pred_a)
+            alone0 = float(np.asarray(acq.compute_acq(x.copy())).reshape(-1)[0])
+            vb, gb = acq.compute_acq_with_gradient(x.copy(), predictor=arg_b)
+            same([float(vb), np.asarray(gb, dtype=float).reshape(-1)], ref_b[1:], "compute_acq_with_gradient(x, predictor=B) differs from a fresh object built on B", idx, x, seq)
+            val, grad = acq.compute_acq_with_gradient(x.copy())
+            grad = np.asarray(grad, dtype=float).reshape(-1)
+            alone = float(np.asarray(acq.compute_acq(x.copy())).reshape(-1)[0])
+            same([alone0, alone, float(val), grad], (ref_a[0],) + tuple(ref_a), "default predictor before / after an evaluation with predictor=B", idx, x, seq)
+            ck.check_equal_values(CL_ACQ_VALUE, float(val), alone0, input=_lst(x), sequence=seq, **idx)
+            # -- sequence 3: interleaving, two rounds, ends with the default predictor given explicitly
+            seq = "new object; 2 x [with_gradient(x, predictor=B); with_gradient(x); compute_acq(others, predictor=B); compute_acq(x)]; compute_acq(x, predictor=<default dict>)"
+            acq = make_acq(pred_a)
+            for _ in range(2):
+                got_b = _eval_pair(acq, x, arg_b)
+                same(got_b, ref_b, "evaluation with predictor=B differs from a fresh object built on B", idx, x, seq)
+                val, grad = acq.compute_acq_with_gradient(x.copy())
+                grad = np.asarray(grad, dtype=float).reshape(-1)
+                acq.compute_acq(others.copy(), predictor=arg_b)
+                alone = float(np.asarray(acq.compute_acq(x.copy())).reshape(-1)[0])
+                same([alone, float(val), grad], ref_a, "default predictor interleaved with evaluations with predictor=B", idx, x, seq)
+            alone = float(np.asarray(acq.compute_acq(x.copy(), predictor=acq.predictor)).reshape(-1)[0])
+            same([alone], ref_a[:1], "compute_acq(x, predictor=<default dict>) after evaluations with predictor=B", idx, x, seq)
+            ck.compare(fd_clause, fbatch, x, grad, ref_a[0], dict(idx, sequence=seq), lower=np.full(x.shape, 0.0), upper=np.full(x.shape, 1.0))
+        except Exception as exc:
+            ck.count[CL_OTHER] += 1
+            ck.violation(CL_OTHER, problem="exception: %s: %s" % (type(exc).__name__, exc), input=_lst(x), **idx)
+
+
+def _part_e(ck, tier, seed, info):
+    from scipy.stats import norm
+    from syne_tune.config_space import uniform
+    from syne_tune.optimizer.schedulers.searchers.utils.hp_ranges_factory import make_hyperparameter_ranges
+    from syne_tune.optimizer.schedulers.searchers.bayesopt.datatypes.common import (
+        INTERNAL_METRIC_NAME,
+        INTERNAL_CONSTRAINT_NAME,
+    )
+    from syne_tune.optimizer.schedulers.searchers.bayesopt.gpautograd.constants import OptimizationConfig
+    from syne_tune.optimizer.schedulers.searchers.bayesopt.models.gp_model import GaussProcEmpiricalBayesEstimator
+    from syne_tune.optimizer.schedulers.searchers.bayesopt.models.meanstd_acqfunc_impl import (
+        EIAcquisitionFunction,
+        EIpuAcquisitionFunction,
+        CEIAcquisitionFunction,
+    )
+    from syne_tune.optimizer.schedulers.searchers.bayesopt.utils.test_objects import (
+        default_gpmodel,
+        create_tuning_job_state,
+    )
+
+    M, C, COST = INTERNAL_METRIC_NAME, INTERNAL_CONSTRAINT_NAME, "cost_metric"
+    thorough = tier != "quick"
+    rs = np.random.RandomState(6000 + seed)
+    opt_config = OptimizationConfig(lbfgs_tol=1e-6, lbfgs_maxiter=100, verbose=False, n_starts=2)
+
+    def makers(key2, **kw):
+        return {
+            "EI": lambda p: EIAcquisitionFunction(p[M]),
+            "EIpu": lambda p: EIpuAcquisitionFunction({M: p[M], COST: p[COST]}, active_metric=M, **kw),
+            "CEI": lambda p: CEIAcquisitionFunction({M: p[M], C: p[C]}, active_metric=M),
+        }[key2]
+
+    def incumbents_differ(pa, pb):
+        ba, bb = pa[M].current_best(), pb[M].current_best()
+        return len(ba) != len(bb) or any(
+            np.shape(u) != np.shape(v) or not np.allclose(u, v, rtol=1e-6, atol=1e-9) for u, v in zip(ba, bb)
+        )
+
+    # ---- E1: fitted GP predictors; B = A plus one more (much better, feasible) observation, fitted separately
+    n_gp = 0
+    gp_settings = [(True, 3)] + ([(False, 1)] if thorough else [])
+    d, n = 2, 6
+    hp_ranges = make_hyperparameter_ranges({"x%d" % i: uniform(0.0, 1.0) for i in range(d)})
+    X = rs.uniform(0.05, 0.95, size=(n, d))
+    w = rs.normal(size=(d,))
+    obj = 3.0 * np.sin(3.0 * X.dot(w)) + 2.0 * np.sum((X - 0.4) ** 2, axis=1) + 0.1 * rs.normal(size=n)
+    cost = 1.0 + 2.0 * X[:, 0] + 0.5 * np.sum(X**2, axis=1) + 0.05 * rs.normal(size=n)
+    craw = X.dot(np.abs(w) + 0.3)
+    constr = 2.0 * (craw - np.median(craw)) - 0.05
+    x_extra = rs.uniform(0.2, 0.8, size=d)
+    pending = [tuple(float(v) for v in row) for row in rs.uniform(0.1, 0.9, size=(2, d))]
+    data_a = (X, obj, cost, constr)
+    data_b = (
+        np.vstack([X, x_extra.reshape((1, -1))]),
+        np.append(obj, float(np.min(obj)) - 3.0),
+        np.append(cost, 1.5),
+        np.append(constr, -0.5),
+    )
+
+    def build(metric, data, with_pending, nf):
+        Xd, o_, c_, q_ = data
+        state = create_tuning_job_state(
+            hp_ranges=hp_ranges,
+            cand_tuples=[tuple(float(v) for v in row) for row in Xd],
+            metrics=[{M: float(o), COST: float(c), C: float(q)} for o, c, q in zip(o_, c_, q_)],
+            pending_tuples=list(pending) if with_pending else None,
+        )
+        gpmodel = default_gpmodel(state, random_seed=seed, optimization_config=opt_config)
+        est = GaussProcEmpiricalBayesEstimator(active_metric=metric, gpmodel=gpmodel, num_fantasy_samples=nf)
+        return est.fit_from_state(state, update_params=True)
+
+    for with_pending, nf in gp_settings:
+        pa = {k: build(k, data_a, with_pending, nf) for k in (M, COST, C)}
+        pb = {k: build(k, data_b, with_pending, nf) for k in (M, COST, C)}
+        differ = incumbents_differ(pa, pb)
+        assert differ, "GP predictors A and B have the same incumbent"
+        tagf = "gp d=%d n=%d (B: one more, better observation) fantasies=%d pending=%d" % (d, n, nf, 2 if with_pending else 0)
+        for name, kw in (("EI", {}), ("EIpu", {"exponent_cost": 0.6}), ("CEI", {})):
+            mk = makers(name, **kw)
+            key2 = {"EI": None, "EIpu": COST, "CEI": C}[name]
+            # EI: the explicit predictor is passed as a Predictor object, otherwise as a dict (active metric first)
+            arg_b = pb[M] if name == "EI" else {M: pb[M], key2: pb[key2]}
+            xs = [rs.uniform(0.06, 0.94, size=d), np.clip(X[int(np.argmin(obj))] + rs.choice([-1.0, 1.0], size=d) * rs.uniform(0.02, 0.06, size=d), 0.03, 0.97)]
+            others = rs.uniform(0.06, 0.94, size=(3, d))
+            ck.case("other-predictor[%s]" % name, tagf)
+            n_gp += 1
+            _check_other_predictor(ck, name, mk, pa, pb, arg_b, differ, xs, others, {"component": "acquisition", "configuration": "explicit predictor argument, " + tagf}, _cl_acq(name))
+
+    # ---- E2: stub predictors (MCMC lists, fantasy columns); B has its own candidates and shifted means
+    Stub = _make_stub_class()
+    n_stub = 0
+    for d, S, nf in [(2, 2, 3), (3, 1, 1)] + ([(1, 3, 2)] if thorough else []):
+        def stubs(shift):
+            return {
+                M: Stub(rs, d, S, nf, M, offsets=np.full(nf, shift)),
+                COST: Stub(rs, d, 2, nf, COST, with_std=False, positive=True),
+                C: Stub(rs, d, 2, nf, C, offsets=np.linspace(-0.6, 0.2, nf)),
+            }
+
+        pa, pb = stubs(0.0), stubs(-1.5)
+        differ = incumbents_differ(pa, pb)
+        assert differ
+        tag = "stub d=%d mcmc-samples=%d fantasies=%d" % (d, S, nf)
+        for name, kw in (("EI", {}), ("EIpu", {"exponent_cost": 0.7}), ("CEI", {})):
+            mk = makers(name, **kw)
+            key2 = {"EI": None, "EIpu": COST, "CEI": C}[name]
+            # the explicit predictor dict lists the active metric SECOND for the two-output functions
+            arg_b = pb[M] if name == "EI" else {key2: pb[key2], M: pb[M]}
+            xs = [rs.uniform(0.1, 0.9, size=d) for _ in range(2)]
+            others = rs.uniform(0.1, 0.9, size=(3, d))
+            ck.case("other-predictor[%s]" % name, tag)
+            n_stub += 1
+            _check_other_predictor(ck, name, mk, pa, pb, arg_b, differ, xs, others, {"component": "stub-predictor", "configuration": "explicit predictor argument, " + tag}, CL_STUB)
+
+    # ---- E3: constrained EI with MIXED feasibility over the fantasy columns, by construction: the (single-sample)
+    # constraint model is infeasible at all candidates in some columns (incumbent NaN there: CEI = P(c <= 0)) and
+    # feasible at some candidate in the others (CEI = EI w.r.t. the feasible best * P(c <= 0)); closed form from the
+    # stub's analytic means / stds
+    n_mixed = 0
+    for d, S, nf in [(2, 2, 4), (3, 1, 2)] + ([(1, 3, 3)] if thorough else []):
+        for attempt in range(50):
+            act = Stub(rs, d, S, nf, M)
+            n_inf = int(rs.randint(1, nf))  # 1 .. nf - 1 columns without a feasible candidate
+            inf_cols = np.zeros(nf, dtype=bool)
+            inf_cols[rs.choice(nf, size=n_inf, replace=False)] = True
+            con = Stub(rs, d, 1, nf, C, offsets=np.where(inf_cols, 8.0, -3.0))
+            con.cands = act.cands.copy()
+            mc = con.predict_mean_current_candidates()[0]  # (5, nf)
+            feas = mc < 0
+            if np.array_equal(~np.any(feas, axis=0), inf_cols):
+                break
+        else:
+            raise RuntimeError("C09 monitor: could not construct a mixed-feasibility constraint stub")
+        bests = []
+        for ma in act.predict_mean_current_candidates():
+            bests.append(np.array([np.min(ma[feas[:, j], j]) if not inf_cols[j] else np.nan for j in range(nf)]))
+        assert all(np.any(np.isnan(b)) and np.any(np.isfinite(b)) for b in bests)
+        acq = CEIAcquisitionFunction({M: act, C: con}, active_metric=M)
+        config = "stub d=%d mcmc-samples=%d fantasies=%d, columns without feasible candidate: %s" % (d, S, nf, np.flatnonzero(inf_cols).tolist())
+        ck.case("cei-mixed-feasibility", config)
+        xs = [rs.uniform(0.1, 0.9, size=d) for _ in range(4 if thorough else 3)]
+        ident = {"component": "stub-predictor", "configuration": "CEI mixed feasibility, " + config}
+        for x in xs:
+            n_mixed += 1
+            jitter = acq.jitter
+            cmean = con._mean(0, x.reshape((1, -1))).reshape(-1)
+            cstd = float(con._std(0, x.reshape((1, -1)))[0])
+            pfeas = norm.cdf(-cmean / (cstd + 1e-12))
+            want = 0.0
+            for s in range(S):
+                mean = act._mean(s, x.reshape((1, -1))).reshape(-1)
+                std = float(act._std(s, x.reshape((1, -1)))[0])
+                col = np.empty(nf)
+                for j in range(nf):
+                    if inf_cols[j]:
+                        col[j] = pfeas[j]
+                    else:
+                        u = (bests[s][j] - mean[j] - jitter) / std
+                        col[j] = std * (u * norm.cdf(u) + norm.pdf(u)) * pfeas[j]
+                want += -float(np.mean(col)) / S
+            try:
+                alone, val, _ = _eval_pair(acq, np.array(x, dtype=float))
+            except Exception as exc:
+                ck.count[CL_CEI_MIXED] += 1
+                ck.violation(CL_CEI_MIXED, problem="exception: %s: %s" % (type(exc).__name__, exc), input=_lst(x), **ident)
+                continue
+            for which, v in (("compute_acq", alone), ("compute_acq_with_gradient", val)):
+                ck.count[CL_CEI_MIXED] += 1
+                ck.informative[CL_CEI_MIXED] += 1
+                if not (abs(v - want) <= 1e-9 * abs(want) + 1e-14):
+                    ck.violation(
+                        CL_CEI_MIXED,
+                        problem="minus constrained EI differs from -mean_j [EI_j P(c_j<=0) if a feasible best exists in column j else P(c_j<=0)]",
+                        entry=which,
+                        value=v,
+                        closed_form=want,
+                        feasible_best_per_sample=[_lst(b) for b in bests],
+                        input=_lst(x),
+                        **ident
+                    )
+        # the usual value / gradient checks on the same object
+        _check_acq(ck, "CEI", acq, xs, ident, clause=CL_STUB)
+    info["E"] = (
+        "E: explicit predictor= argument (3 call sequences per point, vs fresh objects on A resp. B): %d GP and %d stub "
+        "scenarios for EI/EIpu/CEI; %d points of constrained EI with mixed feasibility over fantasy columns vs closed form"
+        % (n_gp, n_stub, n_mixed)
+    )
+
+
+# ---------------------------------------------------------------------------------------------------------------
 def monitor_gradients(tier="quick", seed=0):
     seed = int(seed)
     ck = _Checker()
@@ -1372,14 +1668,14 @@ def monitor_gradients(tier="quick", seed=0):
     sub_seeds = [seed] if tier == "quick" else [seed, seed + 101, seed + 202]
     with _quiet():
         for sub in sub_seeds:
-            for key, part in (("A", _part_a), ("B", _part_b), ("C-gp", _part_c_gp), ("C-stub", _part_c_stub), ("D", _part_d)):
+            for key, part in (("A", _part_a), ("B", _part_b), ("C-gp", _part_c_gp), ("C-stub", _part_c_stub), ("D", _part_d), ("E", _part_e)):
                 t0 = time.time()
                 part(ck, tier, sub, info)
                 timing[key] = round(timing.get(key, 0.0) + time.time() - t0, 1)
     ck.finish()
     evaluations = int(sum(ck.count.values()))
     summary = (
-        "tier=%s seed=%d (%d catalogue(s), the bounds below are per catalogue); Richardson central differences h=%.0e*max(1,|x|), rtol=%.0e; %s; %s; %s; %s; %s; "
+        "tier=%s seed=%d (%d catalogue(s), the bounds below are per catalogue); Richardson central differences h=%.0e*max(1,|x|), rtol=%.0e; %s; %s; %s; %s; %s; %s; "
         "decided comparisons per clause=%s; skipped (finite difference not self-consistent)=%s; "
         "worst deviation/tolerance=%.3g; seconds=%s"
         % (
@@ -1393,6 +1689,7 @@ def monitor_gradients(tier="quick", seed=0):
             info["C-gp"],
             info["C-stub"],
             info["D"],
+            info["E"],
             {c: ck.count[c] for c in ALL_CLAUSES},
             {c: v for c, v in ck.skipped.items() if v},
             max(ck.worst.values()),
